@@ -87,6 +87,21 @@ def gen_instance(rng, profile="mixed", nj=None, nm=None):
         return gen_race(rng)
     if profile == "multibuf":
         return gen_multibuf(rng)
+    if profile == "wide":
+        # two-digit machine, operation and buffer numbers (string order differs from numeric order): few jobs,
+        # 11-12 machines, short durations; classic or with AGVs (zero or unit travel) so that episodes stay short
+        kind = rng.choice(["classic", "transport", "full"])    # full: every machine has its OWN setup matrix / buffers
+        d, feats = gen_instance(rng, kind, nj=rng.randint(1, 2), nm=rng.randint(11, 12))
+        if kind == "transport":
+            names = ["m-%d" % k for k in range(feats["nm"])] + ["in-buf", "out-buf"]
+            c = rng.choice([0, 1])
+            n = len(names)
+            d["instance_config"]["logistics"]["specification"] = matrix_text(
+                names, [[(0 if a == b else c) for b in range(n)] for a in range(n)])
+            d.pop("init_state", None)
+            feats.update(travel="const", start_time=0)
+        feats["profile"] = "wide"
+        return d, feats
     if profile == "zerotravel":
         d, feats = gen_instance(rng, "transport", nj=rng.randint(2, 3), nm=2)
         names = ["m-0", "m-1", "in-buf", "out-buf"]
@@ -229,8 +244,18 @@ def gen_multibuf(rng):
                      {"name": "b-2", "type": "flex_buffer", "capacity": nj + 1, "role": "output"}]}
     init = {}
     stores = {"b-0": [], "b-1": []}
+    places = ["b-0", "b-1", "b-1"]
+    if rng.random() < 0.35:
+        # a further standalone buffer without a role (default role), some jobs start there
+        names.append("b-3")
+        n = len(names)
+        mat = [[(0 if a == b else rng.randint(1, 9)) for b in range(n)] for a in range(n)]
+        ic["logistics"]["specification"] = matrix_text(names, mat)
+        ic["buffer"].append({"name": "b-3", "type": "flex_buffer", "capacity": nj + 1})
+        stores["b-3"] = []
+        places.append("b-3")
     for j in range(nj):
-        b = rng.choice(["b-0", "b-1", "b-1"])
+        b = rng.choice(places)
         stores[b].append("j-%d" % j)
         init["j-%d" % j] = {"location": b}
     for b, st in stores.items():
